@@ -998,17 +998,17 @@ int main(int argc, char** argv)
      */
     while (simulationstep<laststep && !Display::abort) {
     INOVESA_VERIF_POINT("L0");
-        if (wkm != nullptr) {
-            // works on XProjection
-            wkm->update();
-        }
-    INOVESA_VERIF_POINT("L1");
         if (renormalize > 0 && simulationstep%renormalize == 0) {
-            // works on XProjection
+            // works on XProjection (and refreshes it)
             grid_t1->integrateAndNormalize();
         } else {
             // works on XProjection
             grid_t1->integrate();
+        }
+    INOVESA_VERIF_POINT("L1");
+        if (wkm != nullptr) {
+            // works on XProjection (of the renormalized charge)
+            wkm->update();
         }
     INOVESA_VERIF_POINT("L2");
 
@@ -1130,20 +1130,20 @@ int main(int argc, char** argv)
     // save final result
     if (hdf_file != nullptr) {
     INOVESA_VERIF_POINT("F0");
-        if (wkm != nullptr) {
-            wkm->update();
-        }
-    INOVESA_VERIF_POINT("F1");
         /* Without renormalization at this point
          * the last time step might behave slightly different
          * from the ones before.
          */
         if (renormalize > 0 && simulationstep%renormalize == 0) {
-            // works on XProjection
+            // works on XProjection (and refreshes it)
             grid_t1->integrateAndNormalize();
         } else {
             // works on XProjection
             grid_t1->integrate();
+        }
+    INOVESA_VERIF_POINT("F1");
+        if (wkm != nullptr) {
+            wkm->update();
         }
     INOVESA_VERIF_POINT("F2");
         grid_t1->variance(0);
